@@ -300,7 +300,9 @@ class Session:
         else:
             t.path = self.scratch.new_db_path()
             try:
-                for v_ in list(vars(self.db.storage).values()):
+                from .ioproxy import _attributes
+
+                for v_ in list(_attributes(self.db.storage).values()):
                     if hasattr(v_, "flush") and hasattr(v_, "closed") and not v_.closed:
                         v_.flush()
             except Exception:
